@@ -194,7 +194,7 @@ func tokensOf(opt *dns.OPT) []string {
 	for _, o := range opt.Option {
 		t := tokenOf(o)
 		if seen[t] {
-			t = t + ":dup"
+			continue // the same option forwarded by two plugins: a set in the model
 		}
 		seen[t] = true
 		out = append(out, t)
